@@ -100,13 +100,44 @@ class Check(FormulaCheck):
                     self.chk('MINUTE(TIME)', 'MINUTE(%s)' % T, mi)
                     self.chk('SECOND(TIME)', 'SECOND(%s)' % T, s)
 
+    BOUNDARY_DAYS = [datetime.date(1900, 1, 2), datetime.date(1900, 1, 31), datetime.date(1900, 2, 27), datetime.date(1900, 2, 28), datetime.date(1900, 3, 1), datetime.date(1900, 3, 2),
+                     datetime.date(1999, 12, 31), datetime.date(2000, 2, 29), datetime.date(2000, 12, 31), datetime.date(2400, 12, 31), datetime.date(9999, 12, 30), datetime.date(9999, 12, 31)]
+
     def rdate(self, rnd):
+        if rnd.random() < 0.08:
+            return rnd.choice(self.BOUNDARY_DAYS)
         y = rnd.choice([1900, 1901, 1904, 1999, 2000, 2001, 2019, 2020, 2100, 2400, 9999, rnd.randint(1900, 9999), rnd.randint(1900, 2100)])
         m = rnd.randint(1, 12)
         d = rnd.randint(1, calendar.monthrange(y, m)[1])
         if rnd.random() < 0.2:
             d = calendar.monthrange(y, m)[1]
         return datetime.date(y, m, d)
+
+    def with_time_of_day(self, rnd, a, b):
+        """DAYS / DATEDIF "d" on date-times (host values and ISO text) of two days on the same side of 1 March 1900: the calendar difference in
+        days is the elapsed time in days or - counting whole days - the difference of the two dates; nothing else"""
+        from fractions import Fraction as Fr
+        D = datetime.datetime
+        ta = D(a.year, a.month, a.day) + datetime.timedelta(seconds=rnd.choice([0, 1, 43200, 86399, rnd.randrange(86400)]))
+        tb = D(b.year, b.month, b.day) + datetime.timedelta(seconds=rnd.choice([0, 1, 43200, 86399, rnd.randrange(86400)]))
+        el = Fr((tb - ta).days) + Fr((tb - ta).seconds, 86400)
+        whole = b.toordinal() - a.toordinal()
+        how = rnd.choice(['host', 'text'])
+        if how == 'host':
+            A, B = 'd_a', 'd_b'
+            self.e.bind(d_a=ta, d_b=tb)
+        else:
+            A, B = '"%s"' % ta.strftime('%Y-%m-%d %H:%M:%S'), '"%s"' % tb.strftime('%Y-%m-%dT%H:%M:%S')
+        early = ':jan-feb-1900' if a < M1 else ''
+        g = self.ev('DAYS(%s,%s)' % (B, A))
+        ok = isinstance(g, (int, float)) and not isinstance(g, bool) and (abs(Fr(g) - el) <= Fr(1, 10 ** 7) or g == whole)
+        self.expect('C14/DAYS(date-times)' + early, ok, formula='DAYS(%s,%s)' % (B, A), d_a=ta, d_b=tb, got=g, accepted=[float(el), whole])
+        if ta < tb:
+            g = self.ev('DATEDIF(%s,%s,"d")' % (A, B))
+            fl = el.numerator // el.denominator
+            ok = isinstance(g, (int, float)) and not isinstance(g, bool) and g in (fl, whole)
+            self.expect('C14/DATEDIF-d(date-times)' + early, ok, formula='DATEDIF(%s,%s,"d")' % (A, B), d_a=ta, d_b=tb, got=g, accepted=[fl, whole])
+        self.rec.nt(('tod', ta.isoformat(), tb.isoformat(), how))
 
     def c_random(self, spec, rec):
         rnd = self.rng(spec)
@@ -132,6 +163,8 @@ class Check(FormulaCheck):
             jan1 = ':one-date-is-1900-01-01-other-in-jan-feb-1900' if (a != b and a < M1 and b < M1 and J1 in (a, b)) else ''
             if not strad:
                 self.chk('DAYS' + jan1, 'DAYS(%s,%s)' % (B, A), b.toordinal() - a.toordinal())
+            if not strad and J1 not in (a, b):
+                self.with_time_of_day(rnd, a, b)
             months = (b.year - a.year) * 12 + b.month - a.month - (1 if b.day < a.day else 0)
             for u in 'dmyDMY':
                 if a > b:
